@@ -48,6 +48,9 @@ ASSUMPTIONS = [
     "float32 round-off of the estimate is outside the exact model (stated tolerance)",
     "frames to transform are within the property's quantifier: fitted schema, >= 1 row, every categorical column "
     "has a non-missing entry",
+    "a raise is demanded only where the statement demands one (use before fitting; unseen category index); where the "
+    "current code raises beyond that (fit without target, clashing documented names) a normal return is accepted "
+    "if the remaining clauses hold, and the model (which mirrors those raises) is then not compared",
 ]
 
 # ERROR_PATHS -- every raise / special-case branch / dtype cast / float comparison of the anchored code
@@ -76,7 +79,7 @@ ASSUMPTIONS = [
 #  _fit: torch.tensor(COUNT[1]); index_select(count, feat)   counts of a larger table / extra          value:*, fit-raises:*
 #                                                            categories (20 % / 15 %)
 #  _fit: (v + target_mean) / (data_size + 1) in float32      n_train 1..9, counts up to ~12           value:* (1e-6 rel.)
-#  _fit: name clash -> ValueError                            look-alike numerical names (8 %)          no-raise:name-clash,
+#  _fit: name clash -> ValueError                            look-alike numerical names (8 %)          names-not-one-to-one,
 #                                                                                                      corr
 #  _fit: copy.copy(col_stats[col]) / compute_col_stats       numerical columns 0..2                    stats-keys:*
 #  forward: not is_fitted -> ValueError                      call before fit (12 %), unfitted          no-raise:unfitted
@@ -97,6 +100,16 @@ ASSUMPTIONS = [
 #                                                            object (sanity)                           keys:*
 #  label dtypes: int64 / int32 / float32 / float64           fit: all four (int32 only for max <= 1);  value:*, raises:*
 #                                                            call frames: all four (sanity)
+# CLAUSES -- raise / rejection demands of the oracle and the words of the property statement that back them.
+#   no-raise:unfitted          "Using the transform before fitting ... raises."                              BACKED
+#   no-raise:unseen:<task>     "... or on a category index not seen at fit time, raises."                    BACKED
+#   (name clash)               the statement demands "its column names and their one-to-one correspondence with the
+#                              transformed statistics", NOT a raise: fit may refuse, or accept with distinct names that
+#                              are the statistics keys (names-not-one-to-one otherwise).  RELAXED (was no-raise:name-clash)
+#   fit without a target, all-nan targets, all-missing columns, empty frames: the current code raises, the statement
+#                              is silent -> no oracle demand; the correspondence term is dropped when the implementation
+#                              returns normally on a target-less fit; the other three are never generated.  RELAXED
+#   raises:* / fit-raises:* / roundtrip-raises are demands NOT to raise on inputs inside the quantifier.
 NUM_NAMES = ["n0", "n1", "num_2"]
 CAT_NAMES = ["c0", "c1", "cat_2", "a", "a_0x", "k_1"]
 
@@ -641,7 +654,7 @@ class RefClash(Exception):
     pass
 
 
-def ref_fit(frame, stats):
+def ref_fit(frame, stats, allow_clash=False):
     """(n_train, num_classes, priors) by the documented rule, exact."""
     y = frame["y"]
     if y is None:
@@ -661,7 +674,9 @@ def ref_fit(frame, stats):
               num_names=frame["num"]["names"] if frame["num"] else [], scale=scale)
     names = ref_names(fi)
     if len(set(names)) != len(names):
-        raise RefClash(names)      # names <-> statistics cannot be one-to-one: fit has to refuse
+        if not allow_clash:
+            raise RefClash(names)  # with the documented names, names <-> statistics cannot be one-to-one
+        fi["free_names"] = True
     return fi
 
 
@@ -726,12 +741,13 @@ def oracle(case, obs):
                 fis[inst] = ref_fit(st["frame"], st["stats"])
             except RefErr:
                 return None                     # fitting without usable target: outside the property
-            except RefClash as ex:
-                if o["ok"]:
-                    return fail(f"no-raise:name-clash:{task}", "fit accepted output column names that clash "
-                                "(names <-> transformed statistics cannot be one-to-one)", expected="raise",
-                                observed=ex.args[0])
-                return None
+            except RefClash:
+                # The statement demands the one-to-one correspondence names <-> transformed statistics, not a raise:
+                # refusing is fine (the history ends); accepting is fine too as long as the names the transform then
+                # uses are duplicate-free and ARE the statistics keys (checked below, key names-not-one-to-one).
+                if not o["ok"]:
+                    return None
+                fis[inst] = ref_fit(st["frame"], st["stats"], allow_clash=True)
             tols[inst] = fit_tol(st)
             for j in others_fitted:
                 others_fitted[j] += 1
@@ -742,7 +758,13 @@ def oracle(case, obs):
         elif st["op"] == "keys":
             if fi is None:
                 continue
-            if not o["ok"] or o["keys"] != ref_names(fi):
+            if fi.get("free_names"):
+                if not o["ok"] or len(set(o["keys"])) != len(o["keys"]) or len(o["keys"]) != len(ref_names(fi)):
+                    return fail(f"names-not-one-to-one:{task}", "the documented output names clash and fit accepted "
+                                "them, but the transformed statistics do not have one distinct key per output column",
+                                expected=f"{len(ref_names(fi))} distinct keys", observed=o)
+                fi["keys_seen"] = o["keys"]
+            elif not o["ok"] or o["keys"] != ref_names(fi):
                 return fail(f"stats-keys:{task}", "transformed_stats keys are not the output column names "
                             "(numerical columns, then one per categorical column and non-reference class)",
                             expected=ref_names(fi), observed=o)
@@ -797,7 +819,13 @@ def oracle(case, obs):
             if not o.get("y_same", True):
                 return fail(f"y-changed:{task}", f"step {k}: the labels of the result are not the labels of the input "
                             "frame", observed=o)
-            if o["names"] != names:
+            if fi.get("free_names"):
+                if (len(set(o["names"])) != len(o["names"]) or len(o["names"]) != len(names)
+                        or o["names"] != fi.get("keys_seen", o["names"])):
+                    return fail(f"names-not-one-to-one:{task}", f"step {k}: the output column names are not distinct / "
+                                "not the transformed-statistics keys", expected=fi.get("keys_seen"), observed=o["names"])
+                names = o["names"]
+            elif o["names"] != names:
                 return fail(f"names:{lk}", f"step {k}: output column names differ from numerical columns ++ "
                             "generated names", expected=names, observed=o["names"])
             if len(o["cols"]) != len(cols) or any(len(a) != len(b) for a, b in zip(o["cols"], cols)):
@@ -1043,6 +1071,19 @@ def coq_term(case, obs):
     if any(st["op"] in ("save", "load", "roundtrip") and not o["ok"] for st, o in zip(case["steps"], obs["steps"])):
         return "false"
     pairs = list(zip(case["steps"], obs["steps"]))
+    for st, o in pairs:
+        if st["op"] == "fit" and o["ok"]:
+            # the model mirrors two raises of the current code that the statement does not demand (fit without a
+            # target; clashing documented names): where the implementation returned normally there is nothing to
+            # compare the model with
+            if st["frame"]["y"] is None:
+                return None
+            try:
+                ref_fit(st["frame"], st["stats"])
+            except RefClash:
+                return None
+            except RefErr:
+                return None
     terms = []
     for inst in sorted({st.get("inst", 0) for st, _ in pairs}):
         mine = [(st, o) for st, o in pairs if st.get("inst", 0) == inst and st["op"] != "save"]
